@@ -15,6 +15,7 @@ inductive Out where
   | value (v : Val)                          -- pure result
   | mutate (ret : Val) (newFirstArg : Val)   -- result + new contents of args[0]
   | error
+  | okAny                                    -- a documented kind: any value, but not a runtime error
   | any
 deriving Repr
 
@@ -78,16 +79,16 @@ def call (name : String) (args : List Val) : Out :=
   | "str", [.str s] => .value (.str s)
   | "str", [.char c] => .value (.str (String.singleton c))
   | "str", [.byte b] => .value (.str (toString b.toNat))
-  | "str", [.float _] => .any
-  | "str", [.map ..] => .any
+  | "str", [.float _] => .okAny
+  | "str", [.map ..] => .okAny
   | "str", [v] => (match v with
-      | .null | .int _ | .bool _ | .arr .. => (match display? v with | some s => .value (.str s) | none => .any)
+      | .null | .int _ | .bool _ | .arr .. => (match display? v with | some s => .value (.str s) | none => .okAny)
+      | .err _ => .any      -- error objects are printable; the documents' list is about data values
       | _ => .error)
-  | "str", _ => .error
   | "int", [.int n] => .value (.int n)
   | "int", [.str s] => (match parseDecimal? s with
-      | some n => if i64Range n then .value (.int (Int64.ofInt n)) else .any
-      | none => .any)
+      | some n => if i64Range n then .value (.int (Int64.ofInt n)) else .okAny
+      | none => .okAny)
   | "int", [.float f] => .value (.int f.toInt64)
   | "int", [.char c] => .value (.int (Int64.ofNat c.toNat))
   | "int", [.byte b] => .value (.int (Int64.ofNat b.toNat))
@@ -95,6 +96,65 @@ def call (name : String) (args : List Val) : Out :=
   | "int", _ => .error
   | "is_error", [v] => .value (.bool v.isError)
   | "is_error", _ => .error
+  | "float", [.float f] => .value (.float f)
+  | "float", [.int n] => .value (.float n.toFloat)
+  | "float", [.char c] => .value (.float (Int64.ofNat c.toNat).toFloat)
+  | "float", [.byte b] => .value (.float b.toFloat)
+  | "float", [.bool b] => .value (.float (if b then 1.0 else 0.0))
+  | "float", [.str _] => .okAny
+  | "float", _ => .error
+  | "char", [.char c] => .value (.char c)
+  | "char", [.byte b] => .value (.char (Char.ofNat b.toNat))
+  | "char", [.int n] =>
+    if 0 ≤ n.toInt ∧ n.toInt < 0x110000 ∧ ¬ (0xd800 ≤ n.toInt ∧ n.toInt ≤ 0xdfff) then .value (.char (Char.ofNat n.toInt.toNat)) else .okAny
+  | "char", [.float _] | "char", [.str _] | "char", [.bool _] => .okAny
+  | "char", _ => .error
+  | "byte", [.byte b] => .value (.byte b)
+  | "byte", [.char c] => if c.toNat < 256 then .value (.byte (UInt8.ofNat c.toNat)) else .okAny
+  | "byte", [.int n] => if 0 ≤ n.toInt ∧ n.toInt < 256 then .value (.byte (UInt8.ofNat n.toInt.toNat)) else .okAny
+  | "byte", [.bool b] => .value (.byte (if b then 1 else 0))
+  | "byte", [.float _] | "byte", [.str _] => .okAny
+  | "byte", _ => .error
+  | "tolower", [.char c] => if c.toNat < 128 then .value (.char (if 'A' ≤ c ∧ c ≤ 'Z' then Char.ofNat (c.toNat + 32) else c)) else .okAny
+  | "tolower", [.byte b] => if b.toNat < 128 then .value (.byte (if 65 ≤ b.toNat ∧ b.toNat ≤ 90 then b + 32 else b)) else .okAny
+  | "tolower", [.str s] => if s.toList.all (·.toNat < 128) then .value (.str (String.ofList (s.toList.map fun c => if 'A' ≤ c ∧ c ≤ 'Z' then Char.ofNat (c.toNat + 32) else c))) else .okAny
+  | "tolower", _ => .error
+  | "toupper", [.char c] => if c.toNat < 128 then .value (.char (if 'a' ≤ c ∧ c ≤ 'z' then Char.ofNat (c.toNat - 32) else c)) else .okAny
+  | "toupper", [.byte b] => if b.toNat < 128 then .value (.byte (if 97 ≤ b.toNat ∧ b.toNat ≤ 122 then b - 32 else b)) else .okAny
+  | "toupper", [.str s] => if s.toList.all (·.toNat < 128) then .value (.str (String.ofList (s.toList.map fun c => if 'a' ≤ c ∧ c ≤ 'z' then Char.ofNat (c.toNat - 32) else c))) else .okAny
+  | "toupper", _ => .error
+  | "chars", [.str s] => .value (.arr 0 (s.toList.map .char))
+  | "chars", _ => .error
+  | "join", [.arr _ xs] => (match xs.mapM (fun v => match v with | .char c => some c | _ => none) with
+      | some cs => .value (.str (String.ofList cs))
+      | none => .error)
+  | "join", [.arr _ xs, d] =>
+    (match d with
+     | .str _ | .char _ =>
+       let ds := match d with | .str s => s | .char c => String.singleton c | _ => ""
+       (match xs.mapM (fun v => match v with | .char c => some c | _ => none) with
+        | some cs => .value (.str (ds.intercalate (cs.map String.singleton)))
+        | none => .error)
+     | _ => .error)
+  | "join", _ => .error
+  | "encode_utf8", [.str s] => .value (.arr 0 (s.toUTF8.toList.map .byte))
+  | "encode_utf8", _ => .error
+  | "decode_utf8", [.arr _ xs] => (match xs.mapM (fun v => match v with | .byte b => some b | _ => none) with
+      | some bs => (match String.fromUTF8? (ByteArray.mk bs.toArray) with
+          | some s => .value (.str s)
+          | none => .okAny)
+      | none => .error)
+  | "decode_utf8", _ => .error
+  | "sort", [.arr i xs] =>
+    -- mutually comparable: every pair has an order
+    if xs.all (fun a => xs.all (fun b => (a.partialCmp b).isSome)) then
+      let sorted := xs.mergeSort (fun a b => match a.partialCmp b with | some .gt => false | _ => true)
+      .mutate (.arr i sorted) (.arr i sorted)
+    else .any
+  | "sort", _ => .error
+  | "round", [.float _, .int _] => .okAny
+  | "round", _ => .error
+  | "str", _ => .error
   | _, _ => .any
 
 end P2sh.Spec.Builtins
